@@ -56,6 +56,7 @@ type Exec struct {
 	LostAckSet   bool                   `json:"lost_ack_set,omitempty"`
 	Stuck        bool                   `json:"stuck,omitempty"`
 	FinalCount   int                    `json:"-"` // choices left when the execution stopped
+	Shadow       []string               `json:"-"` // reads on which storage.InMemoryStore (fed the same batches) differs from the log
 	SetupLen     int                    `json:"setup_len"`
 	SetupChoices []engx.Choice          `json:"-"`
 	MainChoices  []engx.Choice          `json:"-"`
@@ -162,6 +163,7 @@ func runDirected(sc Scenario, prefix []int, script []string, keepTrace bool) Exe
 	ex.Responses = s.Responses()
 	ex.Disk = append([]*ledger.ChainedLog{}, disk.Logs...)
 	ex.Batches = disk.Batches
+	ex.Shadow = append([]string{}, disk.ShadowDiffs...)
 	ex.Published = s.Published
 	if keepTrace {
 		ex.Trace = s.Trace
@@ -869,6 +871,15 @@ func scenarios() []Scenario {
 		// a preview that is REFUSED (after it took its locks) and a real write on the same accounts afterwards
 		{Name: "refused-preview-then-real", Setup: []engx.Req{fund("alice", 100)}, Budget: 120, Reqs: []engx.Req{
 			dry(xfer(500, "alice", "bob")), xfer(50, "alice", "bob"), dry(engx.Req{Kind: "revert", RevertID: 7})}},
+		// a posting from an account to itself changes no balance: what the store reports afterwards still bounds the next spend
+		{Name: "self-posting-then-overspend", Setup: []engx.Req{fund("alice", 100), xfer(100, "alice", "alice")}, Budget: 80, Reqs: []engx.Req{
+			xfer(150, "alice", "bob"), xfer(60, "alice", "alice"), xfer(100, "alice", "carol")}},
+		// two keyed writes persisted in ONE batch (they are appended while an earlier batch is in the store), then each key retried
+		{Name: "two-keys-in-one-batch-then-retries", Setup: []engx.Req{fund("alice", 100), fund("carol", 100), fund("erin", 100)}, Budget: 200, Reqs: []engx.Req{
+			xfer(5, "erin", "frank"), ik(xfer(10, "alice", "bob"), "k60"), ik(ref(xfer(10, "carol", "dave"), "r61"), "k61"), ik(xfer(10, "alice", "bob"), "k60"), ik(ref(xfer(10, "carol", "dave"), "r61"), "k61")},
+			Directed: [][]string{
+				{"start(0)", "resume(0)*", "start(1)", "resume(1)*", "start(2)", "resume(2)*", "persist_ok(-1)", "persist_ok(-1)", "resume(0)*", "resume(1)*", "resume(2)*", "start(3)", "resume(3)*", "start(4)", "resume(4)*"},
+			}},
 		// three spenders of one balance: one holds the locks, two queue behind it (a release must grant them one by one)
 		{Name: "three-spenders", Setup: []engx.Req{fund("alice", 100)}, Budget: 400, Reqs: []engx.Req{
 			xfer(100, "alice", "bob"), xfer(100, "alice", "carol"), xfer(100, "alice", "dave")},
@@ -1591,6 +1602,14 @@ func main() {
 					}
 				}
 				return ex
+			}
+			for _, d := range ex.Shadow {
+				// the repository's in-memory store is one of the stores the engine runs on (C05, C07, C10 anchor it): fed the
+				// batches the engine wrote, it must answer the engine's reads as the log does
+				kind := strings.SplitN(d, "|", 2)[0]
+				for _, prop := range []string{"C02", "C05", "C07", "C10"} {
+					r.FailP(prop, "inmemory-store:"+kind+"-read-differs-from-the-log", map[string]any{"scenario": sc, "schedule": ex.Schedule, "choices": ex.Choices}, d, len(ex.Schedule))
+				}
 			}
 			for _, f := range oracles(sc, ex) {
 				in := map[string]any{"scenario": sc, "schedule": ex.Schedule, "choices": ex.Choices, "responses": ex.Responses}
